@@ -150,12 +150,23 @@ func newCache(cfg *CacheCfg) (cacheAPI, error) {
 		}
 		return -1
 	}
-	parse := func(s string) int {
-		var v uint64
-		if _, err := fmt.Sscanf(s, "k%d", &v); err != nil {
-			return -1
+	// string kinds: the key text is "k<int>" unless the plan gives the bytes
+	// itself (adversarial key families: trailing NULs, shared prefixes, ...)
+	text := func(i int) string {
+		if keys[i].StrB != nil {
+			return string(keys[i].StrB)
 		}
-		return idxOfInt(v)
+		return fmt.Sprintf("k%d", keys[i].Int)
+	}
+	byText := make(map[string]int, len(keys))
+	for i := range keys {
+		byText[text(i)] = i
+	}
+	parse := func(s string) int {
+		if i, ok := byText[s]; ok {
+			return i
+		}
+		return -1
 	}
 	switch cfg.KeyKind {
 	case KeyInt:
@@ -179,13 +190,13 @@ func newCache(cfg *CacheCfg) (cacheAPI, error) {
 	case KeyNamedUint64:
 		return newTyped[nUint64](cfg, func(i int) nUint64 { return nUint64(keys[i].Int) }, func(k nUint64) int { return idxOfInt(uint64(k)) })
 	case KeyNamedString:
-		return newTyped[nString](cfg, func(i int) nString { return nString(fmt.Sprintf("k%d", keys[i].Int)) }, func(k nString) int { return parse(string(k)) })
+		return newTyped[nString](cfg, func(i int) nString { return nString(text(i)) }, func(k nString) int { return parse(string(k)) })
 	case KeyNamedBytes:
-		return newTyped[nBytes](cfg, func(i int) nBytes { return nBytes(fmt.Sprintf("k%d", keys[i].Int)) }, func(k nBytes) int { return parse(string(k)) })
+		return newTyped[nBytes](cfg, func(i int) nBytes { return nBytes(text(i)) }, func(k nBytes) int { return parse(string(k)) })
 	case KeyString:
-		return newTyped[string](cfg, func(i int) string { return fmt.Sprintf("k%d", keys[i].Int) }, parse)
+		return newTyped[string](cfg, func(i int) string { return text(i) }, parse)
 	case KeyBytes:
-		return newTyped[[]byte](cfg, func(i int) []byte { return []byte(fmt.Sprintf("k%d", keys[i].Int)) },
+		return newTyped[[]byte](cfg, func(i int) []byte { return []byte(text(i)) },
 			func(k []byte) int { return parse(string(k)) })
 	}
 	return nil, fmt.Errorf("bad key kind %d", cfg.KeyKind)
